@@ -70,6 +70,8 @@ def run_cases(fn, cases, warm_cases=(), procs=None, chunk=None, stall=240, group
     # warm-up runs in the parent, which must stay thread-free: no multi-threaded dispatch (R: rows per
     # thread scaled down) and no chunk-wise factorization in threads (T: threshold scaled down)
     warm_cases = [c for c in warm_cases if not (isinstance(c, dict) and (c.get("R") or c.get("T")))]
+    # ... and no polars containers: polars starts a tokio runtime thread lazily, which would not survive the fork either
+    warm_cases = [c for c in warm_cases if not (isinstance(c, dict) and any(str(c.get(k)) in ("pl", "plframe") for k in ("vcont", "kcont")))]
     if warm_cases:
         # canary: the warm-up runs library code in *this* process; try it in a forked child first so that a crash
         # in nopython code (e.g. an out-of-bounds write) is an outcome of those cases, not the death of the check
